@@ -115,6 +115,11 @@ func VerifC03_HookView() {
 		selKey, selVal = "controller-uid", puid
 		noVal = rt.String("another-uid")
 		rt.Assume(noVal != puid)
+		if rt.Bool("parent-still-carries-a-spec-selector") {
+			// left over from before selector generation was switched on: ignored
+			rt.Cover("generated-selector-with-leftover-spec-selector")
+			parent.Object["spec"] = map[string]interface{}{"selector": map[string]interface{}{"matchLabels": map[string]interface{}{"app": "sel"}}}
+		}
 	} else {
 		parent.Object["spec"] = map[string]interface{}{"selector": map[string]interface{}{"matchLabels": map[string]interface{}{"app": "sel"}}}
 	}
